@@ -149,7 +149,7 @@ def run_conv(cases, res):
             obs['len1'] = (int(x1), Fraction(float(x1)), bool(x1))
             # single elements of a 2-D object by item(): a flat index, an n-d index as separate arguments, an n-d index as one tuple (ndarray.item)
             x2 = build(fx, np, s, nw, nf, [0, 0, 0, c['c'], 0, c['c']], shape=(2, 3), how='raw')
-            obs['item'] = tuple(Fraction(np.asarray(v).reshape(-1).tolist()[0]) if np.asarray(v).size == 1 else 'array' for v in (x2.item(3), x2.item(5), x2.item(1, 0), x2.item((1, 2)), xa.item(0), xa.item(-2)))
+            obs['item'] = tuple(Fraction(np.asarray(v).reshape(-1).tolist()[0]) if np.asarray(v).size == 1 else 'array' for v in (x2.item(3), x2.item(5), x2.item(1, 0), x2.item((1, 2)), xa.item(0), xa.item(-2), x1.item(), x1[0].item()))      # (no argument: the one element of a size-1 object, as ndarray.item())
         except Exception as e:
             res.fail(c, 'C16: a conversion raised %s' % lib.exc_name(e), got=str(e)[:200]); continue
         pend.append((c, obs)); reqs.append([51] + e_fmt(s, nw, nf) + [c['c']])
@@ -159,8 +159,8 @@ def run_conv(cases, res):
         rd = Reader(out); mval = rd.f64(); tag, mint = rd.z(), rd.z(); mbool = rd.b(); muraw, mfloor, mimg = rd.z(), rd.z(), rd.z()
         res.count('V:conversions', key=repr(c), nontrivial=c['c'] != 0, n=8)
         res.sample(c)
-        if obs['item'] != (v,) * 6:
-            res.fail(c, 'C16: item() of an element (flat index, n-d index, tuple index, negative index) is not exactly code*2^-n_frac of that element', expected=str(v), got=[str(t) for t in obs['item']]); continue
+        if obs['item'] != (v,) * 8:
+            res.fail(c, 'C16: item() of an element (flat index, n-d index, tuple index, negative index, no argument on a size-1 object) is not exactly code*2^-n_frac of that element', expected=str(v), got=[str(t) for t in obs['item']]); continue
         if obs['get_val'] != v or obs['asfloat'] != v or obs['float'] != v or obs['arr_val'] != v:
             res.fail(c, 'C16: get_val / astype(float) / float() is not exactly code*2^-n_frac', expected=str(v), got={k: str(obs[k]) for k in ('get_val', 'asfloat', 'float', 'arr_val')}); continue
         if obs['len1'] != (math.floor(v), v, c['c'] != 0):
